@@ -1,6 +1,7 @@
 package main
 
 import (
+	"encoding/json"
 	"fmt"
 	"sort"
 	"strings"
@@ -86,6 +87,46 @@ func leanCounts(j any) map[string]int {
 // runC18Recorder: the real PrometheusRecorder fed from 16 goroutines with Reset barriers, gathered totals vs the model's;
 // and the policy_version label of every recorded series is latest / future / a version not newer than the server's.
 func runC18Recorder(c *Ctx) {
+	// the recorder as the webhook server wires it (metrics.NewPrometheusRecorder(api.GetAPIVersion())): the server version is a
+	// concrete major.minor (hypothesis of C18_label_finite), so user-chosen versions cannot each become a series of their own
+	sv := api.GetAPIVersion()
+	c.Eval(1)
+	if sv.Latest() {
+		c.Tag("serverVersion.latest")
+	} else {
+		c.Tag("serverVersion.concrete")
+	}
+	{
+		rec := metrics.NewPrometheusRecorder(sv)
+		reg := compbasemetrics.NewKubeRegistry()
+		rec.MustRegister(reg.MustRegister)
+		const chosen = 40
+		for i := 0; i < chosen; i++ {
+			e := metricEvent{op: "CREATE", resource: "pods", kind: "eval", decision: "allow", level: "baseline", minor: 100000 + i, mode: "enforce"}
+			rec.RecordEvaluation(metrics.Decision(e.decision), mkLV(e.level, e.minor), metrics.Mode(e.mode), e.attrs())
+			c.Eval(1)
+		}
+		got, err := gather(reg)
+		labels := map[string]bool{}
+		if err == nil {
+			for tuple := range got["pod_security_evaluations_total"] {
+				var t []string
+				json.Unmarshal([]byte(tuple), &t)
+				if len(t) > 2 {
+					labels[t[2]] = true
+				}
+			}
+		}
+		if err != nil || len(labels) > 2 || sv.Latest() {
+			var ls []string
+			for l := range labels {
+				ls = append(ls, l)
+			}
+			sort.Strings(ls)
+			c.Violate(Finding{Desc: fmt.Sprintf("recorder wired as the server does (api.GetAPIVersion() = %s): %d namespaces pinned to %d distinct versions newer than any release created %d distinct policy_version values (want only latest / future)", sv.String(), chosen, chosen, len(labels)),
+				Key: "server-wired-unbounded", Input: J{"serverVersion": sv.String(), "policy_version_values": ls}})
+		}
+	}
 	rounds := sizes(c, 12, 120)
 	r := NewRng(c.Seed + 1818)
 	for round := 0; round < rounds; round++ {
